@@ -4,7 +4,7 @@ use serde_json::{json, Value};
 
 pub const DEFAULT_SEED: u64 = 20261003;
 
-pub const PROPERTIES: &[&str] = &["C19"];
+pub const PROPERTIES: &[&str] = &["C01", "C02", "C19"];
 
 pub struct PlanItem {
     pub engine: &'static str,
@@ -19,7 +19,9 @@ pub fn plan(property: &str) -> Option<Vec<PlanItem>> {
         thorough_runs,
     };
     Some(match property {
-        "C19" => vec![it("unionfind", 400_000, 40_000_000)],
+        "C01" => vec![it("graph", 600_000, 30_000_000)],
+        "C02" => vec![it("stable", 600_000, 30_000_000)],
+        "C19" => vec![it("unionfind", 4_000_000, 400_000_000)],
         _ => return None,
     })
 }
